@@ -414,7 +414,10 @@ func c03Extensions(c *engine.Ctx, rule string) {
 			}
 			if d != nil && i != nil {
 				at = i.Pos()
-				decided, ordered, how = true, engine.Before(d, i), "static calls in "+engine.FuncName(f)
+				// whenever both run, the dedup step runs first: it can be followed by the ignore step and never the reverse
+				dThenI, _ := engine.CanReach(d, func(in ssa.Instruction) bool { return in == i }, nil)
+				iThenD, _ := engine.CanReach(i, func(in ssa.Instruction) bool { return in == d }, nil)
+				decided, ordered, how = true, engine.Before(d, i) || (dThenI && !iThenD), "static calls in "+engine.FuncName(f)
 			}
 		}
 		if !decided {
